@@ -44,7 +44,7 @@ def table_case(counts, kind='ordinal', nan_counts=None, dev_counts=None, dev_nan
     return case
 
 
-DEGENERATE = ['q_const', 'q_allnan', 'o_many', 'c_id', 'q_unique', 'c_const', 'q_two', 'q_dates', 'q_zero_nan']
+DEGENERATE = ['q_const', 'q_allnan', 'o_many', 'c_id', 'q_unique', 'c_const', 'q_two', 'q_dates', 'q_zero_nan', 'q_ulp']
 
 
 def random_case(rng, n=None, with_dev=None, target=None, allow_nan=True, degenerate=False, variants=False):
@@ -86,6 +86,10 @@ def random_case(rng, n=None, with_dev=None, target=None, allow_nan=True, degener
             # dates coded YYYYMMDD / large ids: quantiles that differ only from the 6th-8th significant digit on, with a spike (ties -> rare quantiles that get regrouped)
             base = rng.choice([20230100.0, 1700000000.0, 1000000.0]); spike = base + rng.choice([1, 15]); step = rng.choice([1.0, 1.0, 0.01])
             cols[a] = maybe_nan([spike if rng.random() < 0.45 else base + step * (1 + int(l * 27 + rng.random() * 3)) for l in latent], pn); quantitative.append(a)
+        elif a == 'q_ulp':
+            # floating-point noise: values a few ulps apart (1.0, 1.0000000000000002, ...) or 0.125 apart around 1e15; one of them rare
+            base, step = rng.choice([(1.0, 2.220446049250313e-16), (1e15, 0.125)])
+            cols[a] = maybe_nan([base + step * (2 if rng.random() < 0.04 else rng.choice([0, 1, 3, 4, 5])) for l in latent], pn); quantitative.append(a)
         elif a == 'q_zero_nan':
             # an 'amount' column: a spike on 0.0 that is its own quantile, nothing below it, and missing values that behave like the zeros
             cols[a] = [np.nan if (l < 0.45 and rng.random() < 0.4 and allow_nan) else 0.0 if l < 0.45 else round(l * 10 + rng.random(), 1) for l in latent]; quantitative.append(a)
